@@ -442,24 +442,33 @@ func (p *sparser) primary() SExpr {
 
 // Contract is the specification attached to one function.
 type Contract struct {
-	Key      string // function key, e.g. "(*machine).AddSig" or "CloneBals"
-	Pkg      string // package path
-	Requires []Clause
-	Ensures  []Clause
-	Modifies []Clause // each clause: a location pattern
-	ModAny   bool     // "modifies *": no frame
-	Loops    map[int]*LoopSpec
-	Inline   bool
-	NoFrame  bool // the frame (modifies) of this function is assumed, not checked (listed as an assumption)
-	Trusted  bool
-	Pure     bool // no heap effects at all; result is a function of arguments and read heap
-	Bounded  int
-	Panics   []Clause // documented panics: condition under which panicking is allowed
-	Assumes  []Clause // explicit assumptions (listed in evidence)
-	Results  []string // names for results when unnamed in source
-	File     string
-	Line     int
-	Used     bool
+	Key       string // function key, e.g. "(*machine).AddSig" or "CloneBals"
+	Pkg       string // package path
+	Requires  []Clause
+	Ensures   []Clause
+	Modifies  []Clause // each clause: a location pattern
+	ModAny    bool     // "modifies *": no frame
+	Loops     map[int]*LoopSpec
+	CallSites []CallSiteSpec
+	CutAfter  string
+	Inline    bool
+	NoFrame   bool // the frame (modifies) of this function is assumed, not checked (listed as an assumption)
+	Trusted   bool
+	Pure      bool // no heap effects at all; result is a function of arguments and read heap
+	Bounded   int
+	Panics    []Clause // documented panics: condition under which panicking is allowed
+	Assumes   []Clause // explicit assumptions (listed in evidence)
+	Results   []string // names for results when unnamed in source
+	File      string
+	Line      int
+	Used      bool
+}
+
+// CallSiteSpec is an obligation on every call of Callee inside the function carrying the contract.
+type CallSiteSpec struct {
+	Callee string
+	Clause Clause
+	Hits   int
 }
 
 type LoopSpec struct {
@@ -537,7 +546,7 @@ var clauseKeywords = map[string]bool{
 	"pred": true, "ghost": true, "axiom": true, "func": true, "requires": true, "ensures": true,
 	"modifies": true, "loop": true, "invariant": true, "inline": true, "trusted": true, "bounded": true,
 	"interface": true, "global": true, "assume": true, "lemma": true, "panics": true, "pure": true,
-	"method": true, "end": true, "results": true, "unroll": true, "envassume": true, "noframe": true, "sealed": true,
+	"method": true, "end": true, "results": true, "unroll": true, "envassume": true, "noframe": true, "sealed": true, "callsite": true, "cutafter": true,
 }
 
 // ParseContractText parses the //@ lines of a contract file.
@@ -740,6 +749,24 @@ func (ss *SpecSet) ParseContractText(pkgPath, file, text string) error {
 				return fmt.Errorf("%s:%d: unroll outside loop", file, c.n)
 			}
 			fmt.Sscanf(rest, "%d", &curLoop.Unroll)
+		case "callsite":
+			// callsite <callee key> : <expr over the callee's parameter names and this function's parameters>
+			// obligation at every call of the callee inside this function (arguments and call context)
+			if cur == nil {
+				return fmt.Errorf("%s:%d: callsite outside func", file, c.n)
+			}
+			j := strings.Index(rest, " : ")
+			if j < 0 {
+				return fmt.Errorf("%s:%d: callsite needs '<callee> : <expr>'", file, c.n)
+			}
+			cl, err := mk(strings.TrimSpace(rest[j+3:]), c.n)
+			if err != nil {
+				return err
+			}
+			cur.CallSites = append(cur.CallSites, CallSiteSpec{Callee: strings.TrimSpace(rest[:j]), Clause: cl})
+		case "cutafter":
+			// the function is verified up to (and including) its first call of this callee on each path; the rest is out of scope
+			cur.CutAfter = rest
 		case "inline":
 			cur.Inline = true
 		case "noframe":
